@@ -124,4 +124,9 @@ MUTANTS += [
  {"id": "revert-F-D3", "props": ["C09"], "edits": [("pymtl3/dsl/ComponentLevel3.py", "    for blk, writes in s._dsl.all_upblk_writes.items():\n      for obj in writes:\n        writer_prop[ obj ] = True # propagatable\n", ""),
     ("pymtl3/dsl/ComponentLevel3.py", "      for obj in writes:\n        obj = obj.get_parent_object()\n        while obj.is_signal():", "      for obj in writes:\n        writer_prop[ obj ] = True # propagatable\n        obj = obj.get_parent_object()\n        while obj.is_signal():")]},
  {"id": "revert-F-D3b", "props": ["C09"], "edits": [("pymtl3/dsl/ComponentLevel3.py", "                    assert not has_writer or writer is v", "                    assert not has_writer")]},
+ {"id": "revert-F-R5", "props": ["C15"], "edits": [("pymtl3/dsl/Component.py", "    top._dsl.all_named_objects |= obj._collect_all_single()\n", "")]},
+ {"id": "revert-F-R6", "props": ["C15"], "edits": [("pymtl3/dsl/Component.py", "      if blk in parent._dsl.update_ff:\n        written._dsl.needs_double_buffer = True\n", "")]},
+ {"id": "revert-F-R7", "props": ["C15"], "edits": [("pymtl3/dsl/Component.py", "from .NamedObject import NamedObject, ParamTreeNode\n", "from .NamedObject import NamedObject\n")]},
+ {"id": "revert-F-R8", "props": ["C15"], "edits": [("pymtl3/dsl/Component.py", "            elif other in removed_connectables and other in parent._dsl.adjacency.get( x, () ):", "            elif False:")]},
+ {"id": "revert-F-R9", "props": ["C15"], "edits": [("pymtl3/dsl/Component.py", "                stale_consts.add( other )\n", "")]},
 ]
